@@ -10,7 +10,7 @@ MCCfgs ==
           top     : {[r \in Regions |-> IF r = "V1" THEN x ELSE "absent"] : x \in TopStates},
           altfile : {{}, {"V1"}},
           xdg     : {"set", "unset", "empty"},
-          home    : {"set"},
+          home    : {"set"}, hlink : {"none"},
           kind    : {[o \in Objs |-> CASE o = 1 -> "file" [] o = 2 -> "dir" [] OTHER -> "dlink"]}] : TRUE}
 
 UsedRegions(c) == c.mounted
